@@ -292,6 +292,18 @@ class Rv:
     def __mul__(s, o): return s._b(o, lambda a, b: a * b)
     def __rmul__(s, o): return s._b(o, lambda a, b: b * a)
     def __truediv__(s, o): return s._b(o, lambda a, b: z3.ToReal(a) / b if a.sort() == I else a / b)
+    def __floordiv__(s, o):
+        oz = _z(o)
+        if s.e.sort() != I or oz.sort() != I or not (z3.is_int_value(oz) and oz.as_long() > 0):
+            raise Unsupported("floor division other than integer // positive constant")
+        return Rv(s.e / oz)          # z3 integer division rounds towards minus infinity for a positive divisor, as Python does
+
+    def __mod__(s, o):
+        oz = _z(o)
+        if s.e.sort() != I or oz.sort() != I or not (z3.is_int_value(oz) and oz.as_long() > 0):
+            raise Unsupported("modulo other than integer % positive constant")
+        return Rv(s.e % oz)
+
     def __neg__(s): return Rv(-s.e)
     def __pos__(s): return s
     def __abs__(s): return Rv(z3.If(s.e >= 0, s.e, -s.e))
@@ -436,6 +448,21 @@ class ListOf:
 class Filtered:
     def __init__(self, fn, seq):
         self.fn, self.seq = fn, seq
+
+
+class RangeSeq:
+    """range(lo, hi) with symbolic bounds (step 1)"""
+
+    def __init__(self, lo, hi):
+        self.lo, self.hi = _z(lo), _z(hi)
+
+    def length(self):
+        return Rv(z3.If(self.hi > self.lo, self.hi - self.lo, z3.IntVal(0)))
+
+    def item(self, i):
+        return Rv(z3.simplify(self.lo + _z(i)))
+
+    __getitem__ = item
 
 
 class Mapped:
@@ -702,6 +729,22 @@ class SymList:
 
     __getitem__ = item
 
+    def __setitem__(self, i, v):
+        i = _z(i)
+        if not ctx().decide(z3.And(i >= 0, i < self.len), "index in range"):
+            raise SymIndexError("list assignment index out of range")
+        self.arr = z3.Store(self.arr, i, _to_real(_z(v)))
+
+    def __mul__(self, n):
+        """[x] * n: a new list of n copies"""
+        if not (z3.is_int_value(z3.simplify(self.len)) and z3.simplify(self.len).as_long() == 1):
+            raise Unsupported("repetition of a list that is not a one-element display")
+        nz = _z(n)
+        out = SymList(f"{self.name}*{next(ctx().fresh)}")
+        out.arr = z3.K(I, z3.simplify(z3.Select(self.arr, 0)))
+        out.len = z3.If(nz > 0, nz, z3.IntVal(0))
+        return out
+
     def max(self):
         c = ctx()
         if not c.decide(self.len >= 1, "list is not empty"):
@@ -842,6 +885,35 @@ class VC:
         self.specs, self.space = specs, space
         self.Continue = _Continue
 
+    def is_concrete(self, it):
+        if isinstance(it, (SymDict, SymList, ChildList, ChildIter, Enum, Rev, ListOf, Filtered, Mapped, RangeSeq, NodeBase)):
+            return False
+        if isinstance(it, Log) and it.forgotten:
+            return False
+        return True
+
+    def repeat(self, x, n):
+        """[x] * n"""
+        if isinstance(n, Rv):
+            if not isinstance(x, (int, float, Rv)):
+                raise Unsupported("repetition of a non-number a symbolic number of times")
+            return SymList(f"rep{next(ctx().fresh)}", [x]) * n
+        return [x] * n
+
+    def getitem(self, seq, k):
+        """seq[k]; a symbolic index into an ordinary list/tuple is made concrete by the oracle (one branch per feasible position)"""
+        if isinstance(k, Rv) and isinstance(seq, (list, tuple)) and not isinstance(seq, Log):
+            c = ctx()
+            n = len(seq)
+            for pos in range(n):
+                if c.decide(k.e == pos, f"index == {pos}"):
+                    return seq[pos]
+            for pos in range(1, n + 1):
+                if c.decide(k.e == -pos, f"index == -{pos}"):
+                    return seq[-pos]
+            raise SymIndexError("list index out of range")
+        return seq[k]
+
     # containers
     def new_dict(self, name):
         return SymDict(name)
@@ -890,7 +962,7 @@ class VC:
             flt, s = s.fn, s.seq
         if isinstance(s, (self.space.Connection, ChildIter)):
             s = ChildList(s if isinstance(s, NodeBase) else s.node, self.space)
-        if isinstance(s, (ChildList, SymList, Mapped)):
+        if isinstance(s, (ChildList, SymList, Mapped, RangeSeq)):
             return ("indexed", s, enum, rev, flt)
         if isinstance(s, SymDict):
             if enum or rev:
@@ -1021,9 +1093,10 @@ def _stored_names(nodes: List[ast.stmt]) -> List[str]:
 
 
 class _Rewriter(ast.NodeTransformer):
-    def __init__(self, fn_name: str, label: Optional[str] = None):
+    def __init__(self, fn_name: str, label: Optional[str] = None, bounded_whiles=()):
         self.fn = fn_name
         self.label = label or fn_name
+        self.bounded_whiles = set(bounded_whiles)
         self.ordinal = 0
         self.loop_stack: List[Tuple[str, int]] = []
 
@@ -1042,7 +1115,32 @@ class _Rewriter(ast.NodeTransformer):
     visit_ImportFrom = visit_Import
 
     def visit_While(self, node):
-        raise Unsupported(f"while loop in {self.fn}")
+        # a `while` whose trip count is bounded by a constant of the code is simply executed (every comparison is an oracle
+        # decision pruned by the path condition; the exploration ends because continuing becomes infeasible); the contract has to
+        # name such loops, everything else is unsupported
+        self.wordinal = getattr(self, "wordinal", 0) + 1
+        if (self.label, self.wordinal) not in getattr(self, "bounded_whiles", ()):
+            raise Unsupported(f"while loop {self.wordinal} in {self.fn}")
+        if any(isinstance(n, (ast.Break, ast.Continue)) for n in ast.walk(node)) or node.orelse:
+            raise Unsupported(f"break/continue/else in while loop {self.wordinal} of {self.fn}")
+        self.generic_visit(node)
+        return node
+
+    def visit_BinOp(self, node):
+        self.generic_visit(node)
+        if isinstance(node.op, ast.Mult) and isinstance(node.left, ast.List) and len(node.left.elts) == 1:
+            call = ast.parse("__vc.repeat(0, 0)", mode="eval").body
+            call.args = [node.left.elts[0], node.right]
+            return ast.copy_location(call, node)
+        return node
+
+    def visit_Subscript(self, node):
+        self.generic_visit(node)
+        if isinstance(node.ctx, ast.Load) and not isinstance(node.slice, ast.Slice):
+            call = ast.parse("__vc.getitem(0, 0)", mode="eval").body
+            call.args = [node.value, node.slice]
+            return ast.copy_location(call, node)
+        return node
 
     def visit_Break(self, node):
         raise Unsupported(f"break in {self.fn}")
@@ -1084,22 +1182,29 @@ class _Rewriter(ast.NodeTransformer):
         body = [s for b in body for s in (b if isinstance(b, list) else [b])]
         self.loop_stack.pop()
         L = f"__L{self.ordinal}"
+        IT = f"__it{self.ordinal}"
         stored = [n for n in _stored_names(node.body) if n not in _stored_names([ast.Assign(targets=[node.target], value=ast.Constant(0))])]
-        pre = [f"{L} = __vc.loop_enter({lid!r}, __ITER__, locals())"]
+        pre = [f"{L} = __vc.loop_enter({lid!r}, {IT}, locals())"]
         for n in stored:
             pre.append(f"{n} = __vc.havoc_local({L}, {n!r}, locals())")
         pre.append(f"__vc.loop_havoc({L}, locals())")
-        new = ast.parse("\n".join(pre)).body
-        new[0].value.args[1] = node.iter
+        cut = ast.parse("\n".join(pre)).body
         guard = ast.parse(f"if __vc.loop_more({L}):\n    try:\n        __T__ = __vc.loop_item({L})\n    except __vc.Continue as __c:\n        if __c.lid != {lid!r}: raise\n    else:\n        try:\n            pass\n        except __vc.Continue as __c:\n            if __c.lid != {lid!r}: raise\n    __vc.loop_step({L}, locals())\n__vc.loop_exit({L}, locals())").body
         try1 = guard[0].body[0]
-        try1.body[0].targets = [node.target]
-        try1.orelse[0].body = body or [ast.Pass()]
-        out = new + guard
-        for s in out:
+        try1.body[0].targets = [copy.deepcopy(node.target)]
+        try1.orelse[0].body = copy.deepcopy(body) or [ast.Pass()]
+        # an iterable that is an ordinary Python object (a list of objects, a range of numbers) is simply iterated
+        natural = ast.parse(f"for __T__ in {IT}:\n    try:\n        pass\n    except __vc.Continue as __c:\n        if __c.lid != {lid!r}: raise").body[0]
+        natural.target = copy.deepcopy(node.target)
+        natural.body[0].body = copy.deepcopy(body) or [ast.Pass()]
+        top = ast.parse(f"{IT} = 0\nif __vc.is_concrete({IT}):\n    pass\nelse:\n    pass").body
+        top[0].value = node.iter
+        top[1].body = [natural]
+        top[1].orelse = cut + guard
+        for s in top:
             ast.copy_location(s, node)
             ast.fix_missing_locations(s)
-        return out
+        return top
 
 
 def nested_defs(outer: ast.FunctionDef) -> Dict[str, ast.FunctionDef]:
@@ -1217,12 +1322,12 @@ def build_main(outer: ast.FunctionDef, ns: Dict[str, Any], vc: VC, standins: Dic
     return g[outer.name]
 
 
-def build_function(fn: ast.FunctionDef, ns: Dict[str, Any], vc: VC, label: Optional[str] = None):
+def build_function(fn: ast.FunctionDef, ns: Dict[str, Any], vc: VC, label: Optional[str] = None, bounded_whiles=()):
     """a module-level function or a method, compiled on its own with the loop rewrite (`label` names it in loop ids)"""
     f2 = copy.deepcopy(fn)
     f2.decorator_list = []
     name = f2.name
-    f2 = _Rewriter(name, label).visit(f2)      # loop ids are (label, ordinal): methods of different classes get different labels
+    f2 = _Rewriter(name, label, bounded_whiles).visit(f2)      # loop ids are (label, ordinal): methods of different classes get different labels
     f2 = strip_all_annotations(f2)
     mod = ast.Module(body=[f2], type_ignores=[])
     ast.fix_missing_locations(mod)
@@ -1256,7 +1361,7 @@ def strip_all_annotations(fn: ast.FunctionDef) -> ast.FunctionDef:
 
 def base_namespace(space: NodeSpace) -> Dict[str, Any]:
     def s_len(x):
-        if isinstance(x, (ChildList, SymList, Mapped)):
+        if isinstance(x, (ChildList, SymList, Mapped, RangeSeq)):
             return x.length()
         return builtins.len(x)
 
@@ -1316,7 +1421,16 @@ def base_namespace(space: NodeSpace) -> Dict[str, Any]:
     def s_str(x=""):
         return builtins.str(x)
 
-    ns = {"len": s_len, "list": s_list, "iter": s_iter, "enumerate": s_enumerate, "reversed": s_reversed, "map": s_map, "filter": s_filter,
+    def s_range(*a):
+        if any(isinstance(x, Rv) for x in a):
+            if len(a) == 1:
+                return RangeSeq(0, a[0])
+            if len(a) == 2:
+                return RangeSeq(a[0], a[1])
+            raise Unsupported("range with a symbolic bound and a step")
+        return builtins.range(*a)
+
+    ns = {"range": s_range, "len": s_len, "list": s_list, "iter": s_iter, "enumerate": s_enumerate, "reversed": s_reversed, "map": s_map, "filter": s_filter,
           "sum": s_sum, "set": s_set, "max": sym_max, "min": sym_min}
     ns.update(space.namespace())
     return ns
